@@ -15,6 +15,7 @@ import Anytype.Generated.TreeFormGen
 import Anytype.Lemmas.Heap
 import Mathlib.Tactic.SplitIfs
 set_option linter.unusedSimpArgs false
+set_option linter.unusedTactic false
 
 namespace Anytype
 
@@ -267,11 +268,13 @@ local macro "gen_case" : tactic =>
     | rfl
     | (repeat' (first | rfl | (split_ifs <;> try simp_all) | (split <;> try simp_all))))
 
-/-- the cases a typed getter cannot produce once `TypeOf` has been tested -/
+/-- the cases a typed getter cannot produce once `TypeOf` has been tested, and the cases in which the two
+sides took different arms of the same integer test written in two ways (`i >= n` / `i < n`) -/
 local macro "gen_absurd" : tactic =>
-  `(tactic| all_goals (
-      simp_all [L_getK_ok_iff, O_getK_ok_iff, L_getK_panic_false, O_getK_panic_false,
-        kind_object_iff, kind_list_iff]; done))
+  `(tactic| all_goals (first
+      | omega
+      | (simp_all [L_getK_ok_iff, O_getK_ok_iff, L_getK_panic_false, O_getK_panic_false,
+          kind_object_iff, kind_list_iff]; done)))
 
 theorem getGen_eq_aux (fuel : Nat) :
     (∀ h a tf, getLGen fuel h a tf = TF.getL fuel h a tf) ∧
@@ -284,9 +287,11 @@ theorem getGen_eq_aux (fuel : Nat) :
     · intro h a tf
       simp only [getLGen, TF.getL, TF.split, TF.parseIdx, ihL, ihO]
       gen_case
+      gen_absurd
     · intro h a tf
       simp only [getOGen, TF.getO, TF.split, TF.parseIdx, ihL, ihO]
       gen_case
+      gen_absurd
 
 theorem typeGen_eq_aux (fuel : Nat) :
     (∀ h a tf, typeLGen fuel h a tf = .ok (TF.typeL fuel h a tf)) ∧
@@ -316,9 +321,11 @@ theorem unsetGen_eq_aux (fuel : Nat) :
     · intro h a tf
       simp only [unsetLGen, TF.unsetL, TF.split, TF.parseIdx, ihL, ihO]
       gen_case
+      gen_absurd
     · intro h a tf
       simp only [unsetOGen, TF.unsetO, TF.split, O.unset, ihL, ihO]
       gen_case
+      gen_absurd
 
 theorem setGen_eq_aux (fuel : Nat) :
     (∀ h a tf g, setLGen fuel h a tf g = TF.setL fuel h a tf g) ∧
@@ -370,7 +377,45 @@ theorem serStringGen_eq (s : Str) : serStringGen s = ser (.str s) := by simp [se
 
 theorem serFGen_eq (f : F64) : serFGen f = serF f := by
   unfold serFGen serF goAbsGePow10 goAbsLeNegPow10 goAbsPos goEqTrunc
-  cases f.isNaN <;> cases f.isInf <;> simp
+  cases f.isNaN <;> cases f.isInf <;> simp <;> (try (split_ifs <;> simp_all))
+
+/-- the separator a loop writes between two elements: either behind every element but the last (the test
+"there is a next element") or in front of every element but the first (the test "the index is positive") -/
+def sepBefore (S : Str) (i : Nat) (isNil : Bool) : Str := if 0 < i ∧ isNil = false then S else []
+
+/-- a generated loop over the elements satisfies the invariant stated in the goal: induction over the
+elements, the recursive call by the induction hypothesis, the element by `hx` -/
+local macro "ser_loop" f:ident g:ident : tactic =>
+  `(tactic| (intro xs; induction xs with
+    | nil => intro _ i acc; simp [$f:ident, $g:ident, sepBefore]
+    | cons x rest ih =>
+      intro hx i acc
+      have hx0 := hx x (List.mem_cons_self ..)
+      have ih' := ih (fun y hy => hx y (List.mem_cons_of_mem _ hy))
+      simp only [$f:ident, ih', hx0]
+      cases rest <;> cases i <;> simp [$g:ident, sepBefore]))
+
+/-- the generated loop over the elements of a list is `serList`.  Two invariants are tried: nothing is
+owed when an iteration starts (`S = []`), or the separator is (`S = [',']`). -/
+theorem serGen_loop1_sound (xs : List JVal) (hx : ∀ x ∈ xs, serGen x = ser x) (acc : Str) :
+    serGen_loop1 xs 0 acc = acc ++ serList xs := by
+  have key : ∃ S : Str, ∀ (xs : List JVal), (∀ x ∈ xs, serGen x = ser x) → ∀ (i : Nat) (acc : Str),
+      serGen_loop1 xs i acc = acc ++ sepBefore S i xs.isEmpty ++ serList xs := by
+    first
+    | refine ⟨[], ?_⟩; ser_loop serGen_loop1 serList
+    | refine ⟨[','], ?_⟩; ser_loop serGen_loop1 serList
+  obtain ⟨S, key⟩ := key
+  simpa [sepBefore] using key xs hx 0 acc
+
+theorem serGen_loop2_sound (kvs : List (Str × JVal)) (hx : ∀ p ∈ kvs, serGen p.2 = ser p.2) (acc : Str) :
+    serGen_loop2 kvs 0 acc = acc ++ serFields kvs := by
+  have key : ∃ S : Str, ∀ (kvs : List (Str × JVal)), (∀ p ∈ kvs, serGen p.2 = ser p.2) → ∀ (i : Nat) (acc : Str),
+      serGen_loop2 kvs i acc = acc ++ sepBefore S i kvs.isEmpty ++ serFields kvs := by
+    first
+    | refine ⟨[], ?_⟩; ser_loop serGen_loop2 serFields
+    | refine ⟨[','], ?_⟩; ser_loop serGen_loop2 serFields
+  obtain ⟨S, key⟩ := key
+  simpa [sepBefore] using key kvs hx 0 acc
 
 mutual
 theorem serGen_eq : ∀ v : JVal, serGen v = ser v
@@ -379,19 +424,26 @@ theorem serGen_eq : ∀ v : JVal, serGen v = ser v
   | .int i => by simp only [serGen, serIntGen_eq]
   | .float f => by simp only [serGen, serFGen_eq, ser]
   | .str s => by simp only [serGen, serStringGen_eq]
-  | .list xs => by simp [serGen, ser, serGen_loop1_eq xs]
-  | .obj kvs => by simp [serGen, ser, serGen_loop2_eq kvs]
-theorem serGen_loop1_eq : ∀ (xs : List JVal) (acc : Str), serGen_loop1 xs acc = acc ++ serList xs
-  | [], acc => by simp [serGen_loop1, serList]
-  | x :: rest, acc => by
-    simp only [serGen_loop1, serList, serGen_eq x, serGen_loop1_eq rest]
-    cases rest <;> simp [serList]
-theorem serGen_loop2_eq : ∀ (kvs : List (Str × JVal)) (acc : Str), serGen_loop2 kvs acc = acc ++ serFields kvs
-  | [], acc => by simp [serGen_loop2, serFields]
-  | (k, x) :: rest, acc => by
-    simp only [serGen_loop2, serFields, serGen_eq x, serGen_loop2_eq rest]
-    cases rest <;> simp [serFields]
+  | .list xs => by simp [serGen, ser, serGen_loop1_sound xs (serGen_all xs)]
+  | .obj kvs => by simp [serGen, ser, serGen_loop2_sound kvs (serGen_allF kvs)]
+theorem serGen_all : ∀ (xs : List JVal), ∀ x ∈ xs, serGen x = ser x
+  | [], _, h => by cases h
+  | y :: rest, x, h => by
+    cases List.mem_cons.1 h with
+    | inl e => rw [e]; exact serGen_eq y
+    | inr h' => exact serGen_all rest x h'
+theorem serGen_allF : ∀ (kvs : List (Str × JVal)), ∀ p ∈ kvs, serGen p.2 = ser p.2
+  | [], _, h => by cases h
+  | (k, y) :: rest, p, h => by
+    cases List.mem_cons.1 h with
+    | inl e => rw [e]; exact serGen_eq y
+    | inr h' => exact serGen_allF rest p h'
 end
+
+theorem serGen_loop1_eq (xs : List JVal) (acc : Str) : serGen_loop1 xs 0 acc = acc ++ serList xs :=
+  serGen_loop1_sound xs (fun x _ => serGen_eq x) acc
+theorem serGen_loop2_eq (kvs : List (Str × JVal)) (acc : Str) : serGen_loop2 kvs 0 acc = acc ++ serFields kvs :=
+  serGen_loop2_sound kvs (fun p _ => serGen_eq p.2) acc
 
 theorem formatStringLGen_eq (indent : Int) (xs : List JVal) :
     formatStringLGen indent xs = formatString indent (.list xs) := by
